@@ -58,6 +58,15 @@ def r1(ctx):
     dom = {ren.get("%s#%d" % (l[1], l[0]), l[1]): str(l[3]) for l in f.loops}
     okd = (dom.get("K0") == "len(kernels)" and dom.get("K1") == "len(kernels[0])" and dom.get("K2") == "len(kernels[0][0])" and dom.get("K3") == "len(kernels[0][0][0])")
     ya = [v for h, v in ex.allocs.items() if ex.names[h] == f.target.name]
+    # an extent written as the length of the freshly allocated output at some level is that level's allocation extent
+    def _own_extent(v):
+        import re
+        if ya and re.fullmatch(r"len\(%s(\[[^\]]*\])*\)" % re.escape(f.target.name), v or ""):
+            depth = v.count("[")
+            if depth < len(ya[0]):
+                return str(ya[0][depth])
+        return v
+    dom = {k_: _own_extent(v_) for k_, v_ in dom.items()}
     okd = okd and ya and dom.get("Y1") == str(ya[0][1]) and dom.get("Y2") == str(ya[0][2]) and all(str(l[2]) == "0" and l[4] is None for l in f.loops)
     ctx.check("R02.1", "convolution:domain", bool(okd), "domain:" + str(sorted(dom.items())), where, "every loop covers its whole dimension")
     bounds_only = all(str(g).startswith("and(gt0(") for g in f.guards) and len(f.guards) <= 1
@@ -292,13 +301,31 @@ def r5(ctx):
     ctx.check("R02.5", "input-is-last-activated", X is not None, "layer-input", c.loc(fn, lnode), "x = activated.last().unwrap() at the start of each step")
     from .c12 import predict_rule
     predict_rule(ctx, "R02.5", "predict-is-last-activation")
-    # flatten after activation/dropout in spatial forwards
+    # flatten after activation/dropout in spatial forwards: decided on the E6 summary - the second component of the result is
+    # `<post>.flatten()` exactly on the paths where self.flatten holds, the first component (pre-activation) is never flattened
+    from .. import e6
     for l in ("convolution::Convolution", "deconvolution::Deconvolution", "maxpool::Maxpool"):
         f2 = ctx.fn(l + "::forward")
-        st = top_stmts_of(f2["body"])
-        fl = [k for k, s_ in enumerate(st) if s_.get("k") == "if" and pretty(strip(s_["c"])) == "self.flatten"]
-        okf = len(fl) == 1 and "post = post.flatten()" in pretty(st[fl[0]]) and fl[0] < len(st) - 1 and strip(st[-1]).get("k") == "tup" and [pretty(strip(z)) for z in strip(st[-1])["xs"]][:2] == ["pre", "post"]
-        ctx.check("R02.5", "flatten-flag:" + l.split("::")[-1], okf, "flatten-handling", c.loc(f2), "if self.flatten { post = post.flatten() } as the last step")
+        okf = None
+        try:
+            E2_ = e6.Exec(c, f2)
+            ps = [p_ for p_ in E2_.run_fn() if p_.exit is None or p_.exit[0] == "return"]
+        except Unestablished:
+            ps = []
+        FL = ("field", ("p", "self"), "flatten")
+        seen = set()
+        for p_ in ps:
+            val = p_.val if p_.exit is None else p_.exit[1]
+            pol = [b_ for (t_, b_) in p_.pc if t_ == FL]
+            if not (isinstance(val, tuple) and val and val[0] == "tup" and len(val[1]) >= 2) or not pol:
+                okf = False
+                continue
+            seen.add(pol[0])
+            is_flat = e6.is_call(e6.strip_upd(val[1][1]), "flatten", 1) is not None
+            pre_flat = e6.is_call(e6.strip_upd(val[1][0]), "flatten", 1) is not None
+            good = (is_flat == pol[0]) and not pre_flat
+            okf = good if okf is None else (okf and good)
+        ctx.check("R02.5", "flatten-flag:" + l.split("::")[-1], bool(okf) and seen == {True, False}, "flatten-handling", c.loc(f2), "post is flattened iff self.flatten; pre never")
 
 
 def run(ctx):
